@@ -155,7 +155,7 @@ def run_lin(case):
             except Exception:
                 pass
     try:
-        with structured((sum(case["rs"]) // 3) % 9 if sum(case["rs"]) % 2 else 0) as skind:
+        with structured((sum(case["rs"]) // 3) % 10 if sum(case["rs"]) % 2 else 0) as skind:
             x = crandn(rng, ish, cdt)
             y = crandn(rng, ish, cdt)
         if skind != "gauss":
